@@ -8,4 +8,6 @@ require (
 	github.com/emersion/go-webdav v0.0.0
 )
 
+require github.com/teambition/rrule-go v1.8.2 // indirect
+
 replace github.com/emersion/go-webdav => /repo
